@@ -3,6 +3,8 @@ package main
 import (
 	"fmt"
 	"strings"
+
+	"github.com/ulikunitz/lz/suffix"
 )
 
 // hardText generates the hard families for suffix sorting named in C09.
@@ -350,6 +352,62 @@ func rev(p []byte) []byte {
 	return q
 }
 
+// budgetText: inputs that exhaust the trsort budget and then reach a tandem repeat group
+// (tuned offline: ~60%% of the inputs fail a budget check, ~0.15%% reach trPartialCopy).
+func budgetText(r *rng) []byte {
+	var t []byte
+	nw := r.rangeIn(15, 26)
+	for rep := 0; rep < 2; rep++ {
+		for i := 0; i < nw; i++ {
+			t = append(t, 'a', byte('b'+i%24))
+		}
+		t = append(t, byte('A'+rep))
+	}
+	groups := r.rangeIn(1, 2)
+	for g := 0; g < groups; g++ {
+		pl := r.rangeIn(2, 5)
+		pat := make([]byte, pl)
+		for i := range pat {
+			pat[i] = byte('x' + r.intn(3))
+		}
+		k := r.rangeIn(3, 7)
+		copies := r.rangeIn(3, 5)
+		for c := 0; c < copies; c++ {
+			for i := 0; i < k; i++ {
+				t = append(t, pat...)
+			}
+			t = append(t, byte('f'+c+5*g))
+		}
+	}
+	return t
+}
+
+// genBudgetScript sorts 8 budget-stress inputs; all are checked by the oracle, the first is
+// also emitted for certification by the model.
+func genBudgetScript(r *rng, id string, cnt counters, emit func(line, out string)) *xExec {
+	hdr := fmt.Sprintf("S %s X", id)
+	e := &xExec{cnt: cnt}
+	e.lines = append(e.lines, hdr)
+	emit(hdr, fmt.Sprintf("S %s ok", id))
+	bf0, pc0 := suffix.VerifEvents[0].Load(), suffix.VerifEvents[1].Load()
+	for k := 0; k < 8; k++ {
+		l := "sort " + hx(budgetText(r))
+		out := e.step(l)
+		if k == 0 {
+			emit(l, out)
+		}
+	}
+	// (counters are global: with parallel shards they are attributed approximately)
+	if suffix.VerifEvents[0].Load() > bf0 {
+		cnt.inc("s.budget.fail")
+	}
+	if suffix.VerifEvents[1].Load() > pc0 {
+		cnt.inc("s.budget.partialcopy")
+	}
+	emit("E", "E")
+	return e
+}
+
 func xSuite(gen func(r *rng, id string, cnt counters, emit func(line, out string)) *xExec, deep []string) suiteFn {
 	return func(r *rng, id string, cnt counters, emit func(line, out string)) ([]finding, bool) {
 		before := map[string]int{}
@@ -370,6 +428,7 @@ func xSuite(gen func(r *rng, id string, cnt counters, emit func(line, out string
 func init() {
 	suites["s-suffix"] = xSuite(genSuffixScript, []string{"s.sort", "s.lcp", "s.segments.checked"})
 	suites["c-config"] = xSuite(genCfgScript, []string{"c.marshal", "c.newparser.accepted", "c.json.accepted", "c.defaults"})
+	suites["s-budget"] = xSuite(genBudgetScript, []string{"s.budget.fail"})
 	suites["u-units"] = xSuite(genUnitScript, []string{"u.ulcp", "u.ulcs", "u.bitset.clear"})
 	// exhaustive: script k of shard s (8 shards) handles string number k*8+s
 	suites["s-exhaustive"] = func(r *rng, id string, cnt counters, emit func(line, out string)) ([]finding, bool) {
